@@ -9,7 +9,7 @@ PYVC_TRUST = [
 
 PROPS = {
     'C01': {
-        'modules': ['contracts.c01_encode', 'contracts.c04_runtime'],
+        'modules': ['contracts.c01_encode', 'contracts.c01_arrays', 'contracts.c04_runtime'],
         'standins': ['py_codec'],
         'trusted': PYVC_TRUST + ['struct.pack(e+id, x) (CPython struct module): trusted leaf'],
         'assumptions': ['prophyc text -> generated class mapping (python generator + exec): bounded stand-in only'],
@@ -30,7 +30,7 @@ PROPS = {
         'level': 'proof',
     },
     'C19': {
-        'modules': ['contracts.c01_encode', 'contracts.c04_runtime'],
+        'modules': ['contracts.c01_encode', 'contracts.c01_arrays', 'contracts.c04_runtime'],
         'standins': ['py_codec'],
         'trusted': PYVC_TRUST,
         'assumptions': ['host is little-endian (C++ native == little)'],
